@@ -361,6 +361,13 @@ class Interp:
     def project(self, st, v, comp):
         if isinstance(comp, tuple) and comp[0] == "idx":
             return stdlib.index_value(self, st, v, comp[1])
+        if isinstance(comp, tuple) and comp[0] == "range":
+            import lax_model
+            while isinstance(v, VMutRef):
+                v = self.read_place(st, v.place)
+            if isinstance(v, VSeq):
+                return VSeq(lax_model.mk_slice(st, v.t, comp[1], comp[2]))
+            return VTop("slice of " + type(v).__name__)
         if isinstance(v, VRec):
             if comp in v.f:
                 return v.f[comp]
@@ -395,6 +402,13 @@ class Interp:
             return v
         if isinstance(comp, tuple) and comp[0] == "idx":
             return stdlib.update_index(self, st, v, comp[1], path[1:], val)
+        if isinstance(comp, tuple) and comp[0] == "range" and not path[1:]:
+            import lax_model
+            if isinstance(v, VSeq) and isinstance(val, VSeq):
+                lo, hi = comp[1], comp[2]
+                return VSeq(mk_concat([lax_model.mk_slice(st, v.t, Poly.const(0), lo), val.t,
+                                       lax_model.mk_slice(st, v.t, hi, t_len(v.t))]))
+            return VTop("range write")
         if isinstance(v, VRec):
             return v.with_field(comp, self._update(st, v.f[comp], path[1:], val))
         if isinstance(v, VTup):
@@ -441,6 +455,16 @@ class Interp:
             base = self.read_place(st, (root, path))
             if isinstance(base, VMutRef):
                 root, path = base.place
+                base = self.read_place(st, (root, path))
+            if isinstance(iv, (VRange, VRec)) and not isinstance(iv, VNat):
+                while isinstance(base, VRec) and set(base.f) == {"0"}:
+                    path = path + ("0",)
+                    base = base.f["0"]
+                if isinstance(base, VSeq):
+                    lo, hi = prims._range(self, st, base.t, iv)
+                    self.pre_ge(st, fr, e, "slice", hi, lo, f"{show_poly(lo)} <= {show_poly(hi)}")
+                    self.pre_ge(st, fr, e, "slice", t_len(base.t), hi, f"{show_poly(hi)} <= len({show_term(base.t)})")
+                    return st, (root, path + (("range", lo, hi),))
             return st, (root, path + (("idx", ip),))
         if k in ("call", "block", "ref"):
             outs = self.ev(e, st, fr)
@@ -1307,6 +1331,7 @@ class Interp:
                     walk_v(x, depth + 1)
         for v in vals:
             walk_v(v)
+        self.choice_fill(st, fr, e, name, vals)
         for X in counts & keys:
             self.oblige("PRE", fr, e, "CHOICE " + name, "sparse_bincount counts consumed together with their keys: "
                         + show_term(("spcounts", X))[:120], True, "paired")
@@ -1315,6 +1340,50 @@ class Interp:
                         "sparse_bincount counts are consumed position-wise together with their keys (key order is an "
                         "open choice of the array backend): " + show_term(("spcounts", X))[:160], False, "",
                         detail=self.describe(st))
+
+    def choice_fill(self, st, fr, e, name, vals):
+        """CHOICE: `x.scatter(q, n)` leaves the positions outside the image of q to the backend (the Vec backend fills
+        them with x[0]); such a position may not be read.  A scattered array is read safely along its own index array q
+        (or along a re-indexing of q), or when q is a component numbering (onto 0..n by contract)."""
+        if name in ("scatter", "len", "is_empty", "fill", "empty", "arange", "scatter_assign", "scatter_assign_constant",
+                    "scatter_sub_assign", "set_range"):
+            return
+        if not vals:
+            return
+        recv = vals[0]
+        while isinstance(recv, VMutRef):
+            try:
+                recv = self.read_place(st, recv.place)
+            except Exception:
+                return
+        if isinstance(recv, VRec) and set(recv.f) == {"0"}:
+            recv = recv.f["0"]
+        if not isinstance(recv, VSeq):
+            return
+        scat = []
+
+        def walk_t(x, depth=0):
+            if isinstance(x, tuple) and depth < 6:
+                if len(x) == 4 and x[0] == "scatter":
+                    scat.append(x)
+                    return
+                if x and x[0] in ("sa", "sac", "ssa", "slice", "concat", "upd"):
+                    for y in x[1:2] if x[0] != "concat" else x[1:]:
+                        walk_t(y, depth + 1)
+        walk_t(normalise(st, recv.t))
+        for sc in scat:
+            q = sc[2]
+            ok = q[0] == "cc" or (q[0] == "argsort") or q[0] == "arange"
+            if not ok and name == "gather" and len(vals) > 1:
+                idx = vals[1]
+                while isinstance(idx, VMutRef):
+                    idx = self.read_place(st, idx.place)
+                if isinstance(idx, VSeq):
+                    it = normalise(st, idx.t)
+                    ok = terms_equal(st, it, q) or (it[0] == "gather" and terms_equal(st, it[1], q))
+            self.oblige("PRE", fr, e, "CHOICE " + name,
+                        "a scattered array is read only where it was written (other positions hold the backend's filler): "
+                        + show_term(sc)[:140], ok, "written-positions" if ok else "", detail="" if ok else self.describe(st))
 
     def enclosing_macro(self, e):
         return self.macro_of(e)
@@ -1381,6 +1450,8 @@ class Interp:
                     out.append((s2, v, None))
                 else:
                     raise Unsupported("control flow escaping function: " + str(c))
+        import internal_specs
+        internal_specs.check(self, fn, vals, out, nf, e)
         return out
 
     def apply_value(self, f, args, st, fr, e):
